@@ -454,6 +454,15 @@ func (svr *Server) handleConnection(c io.Closer) (svc *service, err error) {
 	resp.SetReturnCode(message.ConnectionAccepted)
 
 	if err = writeMessage(c, resp); err != nil {
+		// The client is gone before the CONNACK could be written. The CONNECT
+		// was accepted, so this is the abnormal end of a connection: the will
+		// is published and nothing of a clean session is kept.
+		if svc.will != nil {
+			svc.onPublish(svc.will)
+		}
+		if req.CleanSession() {
+			svr.sessMgr.Release(svc.sess)
+		}
 		return nil, err
 	}
 
